@@ -86,17 +86,32 @@ func runC12(r *Run) {
 			if br.Info.Other == nil {
 				continue
 			}
-			for _, v := range []ssa.Value{br.Info.Root, br.Info.Other} {
-				if dependsOn(v, func(x ssa.Value) bool {
+			isAnnounced := func(v ssa.Value) bool {
+				return dependsOn(v, func(x ssa.Value) bool {
 					c, idx := producerCall(x)
 					return c != nil && idx == 0 && strings.HasSuffix(calleeName(&c.Call), "msgp.ReadArrayHeaderBytes")
-				}) != nil {
-					switch br.Info.Op.String() {
-					case ">", ">=":
-						cut[edge{br.If.Block(), br.slotWhenRel(true)}] = true
-					case "<", "<=":
-						cut[edge{br.If.Block(), br.slotWhenRel(false)}] = true
-					}
+				}) != nil
+			}
+			isLenCall := func(v ssa.Value) bool {
+				return dependsOn(v, func(x ssa.Value) bool {
+					c, ok := x.(*ssa.Call)
+					return ok && calleeName(&c.Call) == "builtin:len"
+				}) != nil
+			}
+			// announced > len(rest): the rejecting edge
+			if isAnnounced(br.Info.Root) && isLenCall(br.Info.Other) {
+				switch br.Info.Op.String() {
+				case ">", ">=":
+					cut[edge{br.If.Block(), br.slotWhenRel(true)}] = true
+				case "<", "<=":
+					cut[edge{br.If.Block(), br.slotWhenRel(false)}] = true
+				}
+			} else if isAnnounced(br.Info.Other) && isLenCall(br.Info.Root) {
+				switch br.Info.Op.String() {
+				case "<", "<=":
+					cut[edge{br.If.Block(), br.slotWhenRel(true)}] = true
+				case ">", ">=":
+					cut[edge{br.If.Block(), br.slotWhenRel(false)}] = true
 				}
 			}
 		}
